@@ -288,6 +288,8 @@ func (ex *Exec) rebuild(t *Term, a []*Term) *Term {
 		return tt.Zext(a[0], t.W)
 	case OpSext:
 		return tt.Sext(a[0], t.W)
+	case OpFP:
+		return tt.FP(t.Hi, t.W, a...)
 	}
 	panic("rebuild: unknown op")
 }
@@ -1026,6 +1028,9 @@ func (ex *Exec) constVal(c *ssa.Const) Value {
 			if v, ok := constant.Int64Val(constant.ToInt(c.Value)); ok {
 				return ex.tt.Const(w, uint64(v))
 			}
+		case floatWidth(u) > 0:
+			f, _ := constant.Float64Val(c.Value)
+			return ex.tt.Const(floatWidth(u), fToBits(floatWidth(u), f))
 		}
 	}
 	return &OpaqueVal{What: "const " + c.String()}
@@ -1503,6 +1508,10 @@ func (ex *Exec) unop(fr *frame, i *ssa.UnOp) Value {
 	case token.NOT:
 		return ex.tt.Not(ex.term(x, "!"))
 	case token.SUB:
+		if fw := floatWidth(i.X.Type()); fw > 0 {
+			// IEEE negation flips the sign bit
+			return ex.tt.BvXor(ex.term(x, "neg"), ex.tt.Const(fw, uint64(1)<<uint(fw-1)))
+		}
 		return ex.tt.BvNeg(ex.term(x, "neg"))
 	case token.XOR:
 		return ex.tt.BvNot(ex.term(x, "^"))
@@ -1513,6 +1522,24 @@ func (ex *Exec) unop(fr *frame, i *ssa.UnOp) Value {
 
 func (ex *Exec) convert(v Value, from, to types.Type) Value {
 	fw, tw := intWidth(from), intWidth(to)
+	if ff, tf := floatWidth(from), floatWidth(to); ff > 0 || tf > 0 {
+		x := ex.term(v, "convert")
+		switch {
+		case ff > 0 && tf > 0:
+			if ff == tf {
+				return x
+			}
+			return ex.tt.FP(fpToFP, tf, x)
+		case tf > 0 && fw > 0:
+			if isSigned(from) {
+				return ex.tt.FP(fpFromS, tf, x)
+			}
+			return ex.tt.FP(fpFromU, tf, x)
+		case ff > 0 && tw >= 32 && isSigned(to):
+			return ex.tt.FP(fpToS, tw, x)
+		}
+		ex.unsupported("conversion %s -> %s (only float to int32/int64/int is modelled)", from, to)
+	}
 	if fw > 0 && tw > 0 {
 		x := ex.term(v, "convert")
 		if tw <= fw {
@@ -1629,6 +1656,13 @@ func (ex *Exec) valueEq(a, b Value) *Term {
 }
 
 func (ex *Exec) binop(op token.Token, a, b Value, ta, tb types.Type) Value {
+	if fw := floatWidth(ta); fw > 0 && (op == token.EQL || op == token.NEQ) {
+		eq := ex.tt.FP(fpEq, 0, ex.term(a, "binop lhs"), ex.term(b, "binop rhs"))
+		if op == token.NEQ {
+			return ex.tt.Not(eq)
+		}
+		return eq
+	}
 	switch op {
 	case token.EQL:
 		return ex.valueEq(a, b)
@@ -1658,6 +1692,27 @@ func (ex *Exec) binop(op token.Token, a, b Value, ta, tb types.Type) Value {
 	y := ex.term(b, "binop rhs")
 	tt := ex.tt
 	signed := isSigned(ta)
+	if fw := floatWidth(ta); fw > 0 {
+		switch op {
+		case token.ADD:
+			return tt.FP(fpAdd, fw, x, y)
+		case token.SUB:
+			return tt.FP(fpSub, fw, x, y)
+		case token.MUL:
+			return tt.FP(fpMul, fw, x, y)
+		case token.QUO:
+			return tt.FP(fpDiv, fw, x, y)
+		case token.LSS:
+			return tt.FP(fpLt, 0, x, y)
+		case token.LEQ:
+			return tt.FP(fpLe, 0, x, y)
+		case token.GTR:
+			return tt.FP(fpLt, 0, y, x)
+		case token.GEQ:
+			return tt.FP(fpLe, 0, y, x)
+		}
+		ex.unsupported("float binop %s", op)
+	}
 	switch op {
 	case token.SHL, token.SHR:
 		// Go: shift count is unsigned (or non-negative); counts >= width give 0 / sign fill
